@@ -1,6 +1,7 @@
 package postprocessor
 
 import (
+	"fmt"
 	"io"
 	"strings"
 
@@ -15,6 +16,14 @@ import (
 )
 
 func extractOutlinks(item *models.Item) (outlinks []*models.URL, err error) {
+	// A malformed body must cost at most this URL: the parsers we call (PDF, XML, HTML..) can panic on it
+	defer func() {
+		if r := recover(); r != nil {
+			outlinks = nil
+			err = fmt.Errorf("panic while extracting outlinks: %v", r)
+		}
+	}()
+
 	var (
 		contentType = item.GetURL().GetResponse().Header.Get("Content-Type")
 		logger      = log.NewFieldedLogger(&log.Fields{
